@@ -429,3 +429,76 @@ Theorem C19_exact_example :
   cumlen [(0, 0); (3, 4); (8, 16)]%R = [0; 5; 18]%R /\ poly_len [(0, 0); (3, 4); (8, 16)]%R = 18%R.
 Proof. exact cumlen_example. Qed.
 Print Assumptions C19_exact_example.
+
+(* ================================================================== *)
+(* progress 1 with a REPEATED last cumulative length -- IEEE arithmetic *)
+(* ================================================================== *)
+From RM Require Import Proofs.LengthMono Proofs.PositionEndIEEE.
+
+(* on non-decreasing lengths without NaN / negative entries and a finite total
+   L, the search at distance L returns an index whose length is numerically
+   equal to L (whichever of the equal entries the binary search lands on) *)
+Theorem C19_search_at_total_distance :
+  forall pre L,
+  nondec (pre ++ [L]) -> Forall pos64 (pre ++ [L]) -> is_finite L = true ->
+  exists x, nth_error (pre ++ [L]) (idx_of_dist (pre ++ [L]) L) = Some x /\
+            is_finite x = true /\ B2R x = B2R L.
+Proof. exact search_at_total. Qed.
+Print Assumptions C19_search_at_total_distance.
+
+(* at a distance numerically equal to the selected vertex's cumulative length
+   the interpolation weight is exactly 1 (the subtraction d1 - d0 cannot round
+   to zero outside the near-zero-segment guard) *)
+Theorem C19_weight_one_at_equal_length :
+  forall path lengths i p0 p1 d0 d1 d,
+  nth_error path i = Some p0 -> nth_error path (S i) = Some p1 ->
+  nth_error lengths i = Some d0 -> nth_error lengths (S i) = Some d1 ->
+  fin64 d0 -> fin64 d1 -> fin64 d -> (0 <= B2R d0 <= B2R d1)%R -> B2R d = B2R d1 ->
+  fin32 (px (psub p1 p0)) -> fin32 (py (psub p1 p0)) ->
+  interpolate_vertices path lengths (S i) d =
+  Done (if D.le (D.abs (D.sub d0 d1)) D.eps then p0 else padd p0 (psub p1 p0)).
+Proof. exact interpolate_at_equal_length. Qed.
+Print Assumptions C19_weight_one_at_equal_length.
+
+(* progress 1 on every lengths list of the class of C16_lengths_nondecreasing
+   (every zero-seed outcome of calculate_length, the "last two points equal"
+   outcome with its extra entry included): the distance is exactly the total
+   L, and the position is the first vertex (index 0: L = 0), the last vertex
+   (index past the path), or -- for a vertex p1 whose cumulative length equals
+   L -- the vertex before it under the near-zero-segment guard, else
+   p0 + (p1 - p0): that vertex up to ONE rounding *)
+Theorem C19_progress_one_repeated_last_length :
+  forall path lens,
+  lengths_ok lens -> fin64 (Curve.dist lens) ->
+  (forall i p0 p1, nth_error path i = Some p0 -> nth_error path (S i) = Some p1 ->
+     fin32 (px (psub p1 p0)) /\ fin32 (py (psub p1 p0))) ->
+  (length path <= length lens)%nat -> path <> [] ->
+  let L := Curve.dist lens in
+  progress_to_dist lens D.one = L /\
+  exists q, position_at path lens D.one = Done q /\
+    (q = hd pos0 path \/ q = last path pos0 \/
+     exists i p0 p1 d0 d1,
+       S i = idx_of_dist lens L /\
+       nth_error path i = Some p0 /\ nth_error path (S i) = Some p1 /\
+       nth_error lens i = Some d0 /\ nth_error lens (S i) = Some d1 /\
+       B2R d1 = B2R L /\
+       ((D.le (D.abs (D.sub d0 d1)) D.eps = true /\ q = p0) \/
+        (D.le (D.abs (D.sub d0 d1)) D.eps = false /\ q = padd p0 (psub p1 p0)))).
+Proof. exact position_at_one_lengths_ok. Qed.
+Print Assumptions C19_progress_one_repeated_last_length.
+
+(* concrete: (0,0) (3,4) (3,4) with L = 20 -- the last two points are equal
+   and L is beyond the natural length 5: lengths 0, 5, 5, 5 for 3 vertices;
+   the search lands on the extra entry and progress 1 is the last vertex *)
+Example C19_repeated_last_length_example :
+  match curve_L1 lm0 bezier_fuel 1 [pt 0 0 (Some Linear); pt 3 4 None; pt 3 4 None] (Some (D.of_Z 20)) with
+  | Done c =>
+      (length (c_path c), map D.bits (c_lengths c),
+       idx_of_dist (c_lengths c) (progress_to_dist (c_lengths c) D.one),
+       dump_out dump_pos (position_at (c_path c) (c_lengths c) D.one))
+  | _ => (O, [], O, [])
+  end
+  = (3%nat, [D.bits D.zero; D.bits (D.of_Z 5); D.bits (D.of_Z 5); D.bits (D.of_Z 5)], 3%nat,
+     0%Z :: dump_pos (mkPos (S.of_Z 3) (S.of_Z 4))).
+
+Proof. vm_compute. reflexivity. Qed.
